@@ -104,7 +104,9 @@ pair0_pipe_stop(void *arg)
 		}
 		if (s->wr_ready) {
 			s->wr_ready = false;
-			nni_pollable_clear(&s->writable);
+			if (nni_lmq_full(&s->wmq)) {
+				nni_pollable_clear(&s->writable);
+			}
 		}
 		if (nni_lmq_empty(&s->rmq)) {
 			nni_pollable_clear(&s->readable);
